@@ -272,7 +272,7 @@ def main(tier, seed):
             cases.append({"tree": zt, "fmts": fs, "meta": True})
     for st in SPECIAL_TREES:
         cases.append({"tree": st, "fmts": ["c4", "c4", "md5"]})
-        for sp in ("slash", "slashdot", "dot", "rel", "symlink"):   # the root folder as a user may spell it
+        for sp in ("slash", "slashdot", "dot", "rel", "symlink", "dotdot", "slashslash"):   # the root folder as a user may spell it
             cases.append({"tree": st, "fmts": ["md5", "xxh64"], "spell": sp})
         for fs in ([["md5"], ["c4"], list(ref.FORMATS_CLI)]):
             cases.append({"tree": st, "fmts": fs, "meta": len(fs) == 1})
